@@ -93,6 +93,7 @@ def write_evidence(res, tier, wall, info, violations, known_hit, broken=None):
         "samples": samples[:60],
         "functions_analysed": sorted(res.functions),
         "translation_units": info.get("tus", []),
+        "repo_root": info.get("root"),
         "not_analysed": info.get("not_analysed", []),
         "frozen_minimums": res.minimums,
         "controls": res.controls,
@@ -167,7 +168,8 @@ def conclude(res, tier, t0, info):
         for b in broken:
             print("ANALYSIS-BROKEN: " + b)
         rc = 2
-    if new and rc == 0:
+    if new:
+        # a violation explains a dropped instance count; report the violation
         rp = os.path.join(VERIF, "evidence", "replay", res.pid + ".json")
         with open(rp, "w") as f:
             json.dump({"property": res.pid,
